@@ -30,6 +30,10 @@ pub fn to_amsg(m: &Message) -> AMsg {
             decimals: word_u64(d.decimals as u64),
             minter: d.minter.as_ref().map(|d| d.to_alloc_vec()).unwrap_or_default(),
         },
+        // a message kind the pinned tree does not have (the tree under test may have grown one): a value no honest transfer
+        // or deployment equals, so that comparisons with the reference codec fail instead of the harness failing to build
+        #[allow(unreachable_patterns)]
+        _ => AMsg::Transfer { token_id: [0xEE; 32], source: b"message-kind-unknown-to-the-reference-codec".to_vec(), dest: vec![], amount: [0xEE; 32], data: vec![] },
     }
 }
 
@@ -43,6 +47,11 @@ pub fn to_ahub(h: &HubMessage) -> (AHub, AMsg) {
             let inner = to_amsg(message);
             (AHub::Receive { chain: sstring_bytes(source_chain), inner: inner.encode() }, inner)
         }
+        #[allow(unreachable_patterns)]
+        _ => {
+            let inner = AMsg::Transfer { token_id: [0xEE; 32], source: b"envelope-kind-unknown-to-the-reference-codec".to_vec(), dest: vec![], amount: [0xEE; 32], data: vec![] };
+            (AHub::Receive { chain: b"?".to_vec(), inner: inner.encode() }, inner)
+        }
     }
 }
 
@@ -50,6 +59,8 @@ fn has_empty_optional(m: &Message) -> bool {
     match m {
         Message::InterchainTransfer(t) => t.data.as_ref().map(|d| d.is_empty()).unwrap_or(false),
         Message::DeployInterchainToken(d) => d.minter.as_ref().map(|d| d.is_empty()).unwrap_or(false),
+        #[allow(unreachable_patterns)]
+        _ => false,
     }
 }
 
